@@ -614,3 +614,30 @@ Print Assumptions hash_result_range.
 Print Assumptions hash_generic_result_range.
 Print Assumptions hashbytes_result_range.
 Print Assumptions spec_mimc7_mod.
+
+(* ------------------------------------------------------------------ *)
+(** * Known answers (sanity of the specification itself) *)
+
+(* circomlib's first non-zero round constant, computed by the specification *)
+Example spec_c_1 :
+  spec_c 1 = 20888961410941983456478427210666206549300505294776164667214940546594746570981.
+Proof. vm_compute. reflexivity. Qed.
+
+Lemma Ok_inj {A} (a b : A) : Ok a = Ok b -> a = b.
+Proof. intros H. injection H as H. exact H. Qed.
+
+(* the published MiMC7(1, 2) with 91 rounds.  The specification value is
+   obtained through the conformance theorem: running the specification
+   directly is quadratic in the number of Keccak calls.  (No [injection] /
+   [change] on the closed specification term: they would evaluate it.) *)
+Example spec_mimc7_1_2 :
+  spec_MIMC7 1 2 = 10594780656576967754230020536574539122676596303354946869887184401991294982664.
+Proof.
+  unfold spec_MIMC7.
+  pose proof (mimc7_generic_conforms_any 1 2 91 ltac:(lia)) as H.
+  replace (Z.to_nat 91) with spec_nrounds in H by reflexivity.
+  assert (E : MIMC7HashGeneric 1 2 91 =
+              Ok 10594780656576967754230020536574539122676596303354946869887184401991294982664)
+    by (vm_compute; reflexivity).
+  rewrite E in H. apply Ok_inj in H. symmetry. exact H.
+Qed.
